@@ -14,6 +14,13 @@ NOTE = ("Trusted base: Lean 4.33 kernel; axioms propext/Classical.choice/Quot.so
 
 # property -> (technique, level text, level note, design ref)
 CLAIMED = {
+    "C14": ("Lean 4 theorems on the model of the Python slicing in shift_double_ended and of the argmin in suggest_cable_shift_double_ended + exhaustive differential correspondence",
+            "Proof (all sizes, all |i|<=nx): C14_length, C14_pairing_nonneg/neg (st[j+i] with rst[j]; st[j] with rst[j-i]), "
+            "C14_zero_identity, C14_compose_nonneg/neg, C14_inverse_interior, C14_suggest_member, C14_argmin_unique (a strictly "
+            "smallest objective is the one returned). Model vs shift_double_ended for every (nx<=12, |i|<nx) with tagged "
+            "cells, extra variables and attrs (exact), compositions/inverses on the real function, and planted misalignments: "
+            "objectives recomputed in exact rationals, argmin compared when decisive.",
+            NOTE + "That a planted misalignment makes the objective minimal is a numeric fact about the data: observed, not proved.", "§8 C14"),
     "C15": ("Lean 4 theorems on a code-faithful model (walk/shortcut/filter/nearest) + exact differential correspondence on all 4^N histories",
             "Proof: the chronological walk keeps (i,j) iff bw[j] is the next measurement after fw[i] (C15_walk_iff_adjacent, "
             "C15_merge_iff_adjacent), the early return equals the walk whenever it is taken (C15_shortcut_iff_adjacent, "
